@@ -326,6 +326,9 @@ E = {
  "E-C20-2": "numbers.h: pi() with a hoisted n_plus_2 and n for n + 0L; constant_with_fallback ?: -> early-return if with the negated test, locals regrouped",
  "E-C10-3": "wide_tag / wide_integer glue: wide_tag_rep as a constexpr function returning type_identity (if constexpr), named rep_result before the cast, to_rep operands bound to const references, `|` -> `||`",
  "E-C01-4": "num_traits/scale.h default_scale: two requires-specialisations -> one template with if constexpr; binary_operator.h alignment constants without std::min; convert_operator.h hoisted from_value result",
+ "E-C13-3": "scaled_integer/to_chars_capacity.h: num_digits_from_binary switch -> if chain; num_digits_to_binary through a bits-per-digit conditional; a redundant max removed",
+ "E-C14-3": "charconv/to_chars.h: itoc ?: -> if/return; to_chars_positive ?: -> early return with an explicit nullptr test; to_chars_non_zero alias renamed, destination_length inlined, '-' through minus_char",
+ "E-C18-4": "numeric.h: the trailing_bits tag-dispatch struct -> one function with if constexpr; used_digits_signed<true> ?: -> if/return",
  "E-C02-2": "named.h: result-type computation of quotient extracted into a traits class, std::max written out",
  "E-C04-2": "convert_operator.h: cross-radix steps through a mutate-in-place helper `rescale`, same-radix path through named locals",
  "E-C05-2": "elastic_integer/custom_operator.h: `|` -> `||`, aliases for result types, hoisted locals in bitwise_not and the comparison",
